@@ -36,7 +36,7 @@
 EXTENDS Integers, FiniteSets, TLC
 
 CONSTANTS Ns,      \* script lengths explored, e.g. {1, 2, 3, 4}
-          Kinds,   \* subset of {"cancel", "deadline", "background"}
+          Kinds,   \* subset of {"cancel", "deadline", "derived", "background"}
           Bug      \* subset of BugNames
 
 BugNames == {"EntryCheckLeavesOpen",   \* entry check returns ctx.Err() and leaves a half-used conn open
@@ -46,7 +46,7 @@ BugNames == {"EntryCheckLeavesOpen",   \* entry check returns ctx.Err() and leav
 StepBugs == {"NoWatcherAtStep", "BackgroundInSubstep"}
 
 ASSUME Bug \subseteq BugNames
-ASSUME Kinds \subseteq {"cancel", "deadline", "background"}
+ASSUME Kinds \subseteq {"cancel", "deadline", "derived", "background"}
 
 VARIABLES
   n,        \* number of I/O steps of the call
@@ -133,6 +133,9 @@ Fire ==
 
 Cancel        == kind = "cancel" /\ Fire
 DeadlineFires == kind = "deadline" /\ Fire
+\* kind "derived": the call was given a context DERIVED from the one that is cancelled
+\* (context.WithCancel / WithValue of a parent): the parent's cancellation reaches it
+ParentCancel  == kind = "derived" /\ Fire
 
 (* the AfterFunc goroutine: conn.Close() *)
 WatcherRuns ==
@@ -169,7 +172,7 @@ StepReturn ==
 
 Next ==
   \/ Call \/ EntryCheck \/ PeerCompletes \/ IOFailsClosed
-  \/ Cancel \/ DeadlineFires \/ WatcherRuns \/ StepReturn
+  \/ Cancel \/ DeadlineFires \/ ParentCancel \/ WatcherRuns \/ StepReturn
 
 Spec == Init /\ [][Next]_vars
 
